@@ -474,6 +474,11 @@ fn hist_strategy() -> impl Strategy<Value = HistCase> {
         let mut out: Vec<ColDef> = Vec::new();
         for (i, (mut c, sel)) in v.into_iter().enumerate() {
             coerce_core(&mut c);
+            // a foreign-key annotation points at one of the history's own
+            // table names (which may exist, be dropped later, or never exist)
+            if let Some((t, _)) = c.fk.as_mut() {
+                *t = HT[sel as usize % HT.len()].to_string();
+            }
             // distinct names from the shared pool of names
             let mut k = crate::seq::pick(sel, HC.len());
             while out.iter().any(|o| o.name == HC[k]) {
